@@ -38,6 +38,9 @@ def _model_digest(m):
     return repr(out)
 
 
+_ONES = np.ones((30, 32))
+
+
 def _aper_digest(a):
     out = []
     for p in a._params:
@@ -49,6 +52,13 @@ def _aper_digest(a):
             out.append((p, repr(np.asarray(v.value).tolist()), str(v.unit)))
         else:
             out.append((p, repr(np.asarray(v).tolist())))
+    if hasattr(a, 'do_photometry'):
+        # ... and what it does: an aperture that reports the same parameters
+        # but sums other pixels than before (a cached mask rewritten by some
+        # call) is not the aperture the caller passed in
+        ph = call(a.do_photometry, _ONES, method='exact')
+        out.append(('sums', 'raised' if isinstance(ph, Raised) else repr(
+            np.round(np.asarray(ph[0], dtype=float), 9).tolist())))
     return repr(out)
 
 
@@ -1318,6 +1328,11 @@ class InputsMachine(Machine):
             elif pick % 5 == 0:
                 fn = lambda: obj[0].to_table()  # noqa: E731
                 name = 'index_to_table'
+            elif kind == 'catalog' and pick % 3 == 0:
+                # every default column at once (Kron and circular-aperture
+                # quantities among them)
+                fn = lambda: obj.to_table()  # noqa: E731
+                name = 'to_table'
             elif kind == 'catalog' and pick % 13 == 0:
                 fn = lambda: obj.make_cutouts((5, 5))  # noqa: E731
                 name = 'make_cutouts'
